@@ -792,7 +792,7 @@ var runCounter int
 
 func newRunDirs() (string, string, func()) {
 	runCounter++
-	base := filepath.Join(scratchDir(), fmt.Sprintf("run%d", runCounter))
+	base := filepath.Join(scratchDir(), fmt.Sprintf("run%07d", runCounter))
 	os.RemoveAll(base)
 	src := filepath.Join(base, "src", "tree")
 	out := filepath.Join(base, "sandbox", "out")
